@@ -1,0 +1,95 @@
+// Verification hooks. Compiled only with the `verif-hooks` cargo feature.
+//
+// Everything here is read-only with respect to rsactor's behaviour: thin wrappers that let an
+// external harness evaluate crate-private pure functions, take a snapshot of the wait-for graph,
+// and be told when a mailbox accepted an item.
+
+use crate::Identity;
+use std::sync::OnceLock;
+
+static ACCEPT_PROBE: OnceLock<fn(Identity)> = OnceLock::new();
+
+/// Installs a callback invoked (synchronously, on the sender's thread) right after a mailbox
+/// accepted an envelope or a stop marker. Can be set once per process.
+pub fn set_accept_probe(f: fn(Identity)) -> bool {
+    ACCEPT_PROBE.set(f).is_ok()
+}
+
+#[inline]
+pub(crate) fn accepted(identity: Identity) {
+    if let Some(f) = ACCEPT_PROBE.get() {
+        f(identity);
+    }
+}
+
+/// Snapshot of the wait-for graph as sorted `(caller id, callee id)` pairs.
+#[cfg(feature = "deadlock-detection")]
+pub fn wait_for_edges() -> Vec<(u64, u64)> {
+    let mut edges: Vec<(u64, u64)> = match crate::wait_for_graph().lock() {
+        Ok(graph) => graph.iter().map(|(k, v)| (*k, v.0.id)).collect(),
+        Err(poisoned) => poisoned
+            .into_inner()
+            .iter()
+            .map(|(k, v)| (*k, v.0.id))
+            .collect(),
+    };
+    edges.sort_unstable();
+    edges
+}
+
+/// True when the wait-for graph mutex is poisoned.
+#[cfg(feature = "deadlock-detection")]
+pub fn wait_for_poisoned() -> bool {
+    crate::wait_for_graph().is_poisoned()
+}
+
+#[cfg(feature = "deadlock-detection")]
+fn graph_of(edges: &[(u64, u64)]) -> std::collections::HashMap<u64, (Identity, u64)> {
+    edges
+        .iter()
+        .map(|(k, v)| (*k, (Identity::new(*v, "N"), 0)))
+        .collect()
+}
+
+/// Runs the crate's `has_path` on the graph given as `(caller, callee)` pairs.
+#[cfg(feature = "deadlock-detection")]
+pub fn has_path(edges: &[(u64, u64)], from: u64, to: u64) -> bool {
+    crate::has_path(&graph_of(edges), from, to)
+}
+
+/// Runs the crate's `format_cycle_path` on the graph given as `(caller, callee)` pairs.
+/// Every identity is given the type name `N`.
+#[cfg(feature = "deadlock-detection")]
+pub fn format_cycle_path(edges: &[(u64, u64)], caller: u64, callee: u64) -> String {
+    crate::format_cycle_path(
+        &graph_of(edges),
+        Identity::new(caller, "N"),
+        Identity::new(callee, "N"),
+    )
+}
+
+/// Feeds `durations_ns` to a fresh metrics collector and returns
+/// `(message_count, avg_nanos, max_nanos, error_count)` read through the public accessors,
+/// followed by the same four numbers read through one snapshot.
+#[cfg(feature = "metrics")]
+pub fn metrics_fold(durations_ns: &[u64]) -> ((u64, u128, u128, u64), (u64, u128, u128, u64)) {
+    let c = crate::metrics::MetricsCollector::new();
+    for d in durations_ns {
+        c.record_message(std::time::Duration::from_nanos(*d));
+    }
+    let s = c.snapshot();
+    (
+        (
+            c.message_count(),
+            c.avg_processing_time().as_nanos(),
+            c.max_processing_time().as_nanos(),
+            c.error_count(),
+        ),
+        (
+            s.message_count,
+            s.avg_processing_time.as_nanos(),
+            s.max_processing_time.as_nanos(),
+            s.error_count,
+        ),
+    )
+}
